@@ -357,6 +357,7 @@ func genB(t *rapid.T) CaseB {
 	}
 	n := rapid.IntRange(1, 14).Draw(t, "nops")
 	c.H.Ops = append(c.H.Ops, genOps(t, n, len(c.H.Agents), false)...)
+	c.H.Ops = withCrafted(t, c.H.Ops, nreg)
 	// mostly aim at the operations after the initial registrations
 	if rapid.IntRange(0, 4).Draw(t, "kill_anywhere") == 0 {
 		c.KillOp = rapid.IntRange(0, len(c.H.Ops)-1).Draw(t, "kill_op")
